@@ -131,6 +131,8 @@ pub open spec fn interest(name: Seq<char>, macros: Seq<RustLogMacro>, k: int) ->
     # ---- find ---------------------------------------------------------------------------------------------
     f = u.real_fn(RP, "find", scope=FINDER_SCOPE, props=("C03", "C05", "C06", "C11", "C13", "C14", "C17"))
     rules.sig(f, ret="result")
+    _names = re.findall(r"static\s+ref\s+(\w+)\s*:", f.mbody)
+    rules.r16_map_or(f, inner_subst=[(r"&\s*%s\b" % n, "%s_shim()" % n) for n in _names])
     statics = rules.r_lazy_static(f)
     rules.r_last_mut_set(f)
     rules.r_parse_u32(f)
